@@ -13,6 +13,17 @@ from .contain import Containment
 VERIF = os.path.dirname(os.path.dirname(os.path.abspath(__file__)))
 
 
+def _canonical_form_note():
+    from . import inline
+    note = "source analysed in canonical form (sa/normalize.py N1-N19)"
+    if inline.STATS["expanded"]:
+        note += "; %d call(s) of %d helper(s) unknown to the pinned tree expanded in place: %s" % (
+            inline.STATS["expanded"], len(set(inline.STATS["helpers"])), ", ".join(sorted(set(inline.STATS["helpers"]))[:12]))
+    else:
+        note += "; no helper outside sa/known_functions.json present"
+    return [note]
+
+
 class Ctx:
     """Everything derived from one source tree (re-parsed on every run)."""
 
@@ -336,7 +347,7 @@ def finish(check, t0, seed, explanation, rule_text, extra=None, out_dir=None, ev
         "rule_instances": [{"rule": r, "found": f, "minimum": m} for r, f, m in check.min_instances],
         "samples": samples,
         "all_obligations": ["%s %s" % (o.key, o.status) for o in check.obs],
-        "notes": check.notes,
+        "notes": check.notes + _canonical_form_note(),
         "analysed_root": ctx.root,
     }
     if extra:
